@@ -30,6 +30,7 @@ ASSUMPTIONS = [
 ]
 EXHAUSTIVE = {"quick": "every stop step k in 0..T of every generated run", "thorough": "every stop step k in 0..T of every generated run"}
 TIMEOUT = {"quick": 1200, "thorough": 5400}
+CONFIRM_BY_RERUN = True  # ranks are threads here: an alarm must reproduce in a fresh process (vf/main.py)
 ANCHORS = {
     "distributed_shampoo/distributed_shampoo.py": ["DistributedShampoo.distributed_state_dict", "DistributedShampoo.load_distributed_state_dict", "DistributedShampoo._construct_param_group_key"],
     "distributed_shampoo/utils/shampoo_checkpoint_utils.py": ["flatten", "unflatten", "update_param_state_dict_object", "extract_state_dict_content"],
